@@ -233,8 +233,20 @@ type c15caCase struct {
 	prefix string
 }
 
+// c15caLastFail keeps the last failure message: when the code under test is not
+// deterministic (Go map order in a mutant of DelCtx) rapid cannot reproduce the failure and
+// prints only "flaky test".
+var c15caLastFail string
+
+func c15caReportLast(t *testing.T) {
+	if t.Failed() && c15caLastFail != "" {
+		t.Logf("last failure message: %s", c15caLastFail)
+	}
+}
+
 func (c *c15caCase) fail(format string, a ...any) {
-	c.t.Fatalf("%s\ncluster %s\nhistory:%s", fmt.Sprintf(format, a...), c.cl, c.log.String())
+	c15caLastFail = fmt.Sprintf("%s\ncluster %s\nhistory:%s", fmt.Sprintf(format, a...), c.cl, c.log.String())
+	c.t.Fatalf("%s", c15caLastFail)
 }
 
 func (c *c15caCase) pickKey() string {
@@ -518,6 +530,7 @@ func TestVerifC15CacheSites(t *testing.T) {
 	st := verifkit.New("dispatch-sites-cache")
 	defer st.Flush()
 	env := c15caGetEnv(t)
+	defer c15caReportLast(t)
 
 	rapid.Check(t, func(t *rapid.T) {
 		st.Eval()
@@ -623,8 +636,14 @@ func TestVerifC15CacheSitesDown(t *testing.T) {
 		t.Skipf("inconclusive: cannot replace the cleaner's timing wheel: %v", err)
 	}
 
+	defer c15caReportLast(t)
+
 	rapid.Check(t, func(t *rapid.T) {
 		st.Eval()
+		fatalf := func(format string, a ...any) {
+			c15caLastFail = fmt.Sprintf(format, a...)
+			t.Fatalf("%s", c15caLastFail)
+		}
 		for _, mr := range env.pool {
 			mr.SetError("")
 			mr.FlushAll()
@@ -647,11 +666,11 @@ func TestVerifC15CacheSitesDown(t *testing.T) {
 				st.Note("inconclusive: circuit breaker open; %s", log.String())
 				t.Skip("circuit breaker open")
 			} else if err != nil {
-				t.Fatalf("Set(%q) on a healthy cluster: %v; %s", k, err, log.String())
+				fatalf("Set(%q) on a healthy cluster: %v; %s", k, err, log.String())
 			}
 			h := cl.holders(k)
 			if len(h) != 1 || h[0] != cl.owner(k) {
-				t.Fatalf("Set(%q): key is held by nodes %v, the reference ring names #%d; %s", k, h, cl.owner(k), log.String())
+				fatalf("Set(%q): key is held by nodes %v, the reference ring names #%d; %s", k, h, cl.owner(k), log.String())
 			}
 		}
 		down := rapid.IntRange(0, n-1).Draw(t, "down")
@@ -703,7 +722,7 @@ func TestVerifC15CacheSitesDown(t *testing.T) {
 		}
 		for _, mr := range env.pool {
 			if ks := mr.Keys(); !inCluster[mr] && len(ks) > 0 {
-				t.Fatalf("member-only violated: server %s is not a node of this cluster but holds %q; %s", mr.Addr(), ks, log.String())
+				fatalf("member-only violated: server %s is not a node of this cluster but holds %q; %s", mr.Addr(), ks, log.String())
 			}
 		}
 		st.Class(fmt.Sprintf("down-del-error=%v", err != nil))
@@ -711,12 +730,12 @@ func TestVerifC15CacheSitesDown(t *testing.T) {
 		for _, k := range names {
 			own := cl.owner(k)
 			if own != down && servers[own].Exists(k) {
-				t.Fatalf("key %q is still on its healthy node #%d after Del; %s", k, own, log.String())
+				fatalf("key %q is still on its healthy node #%d after Del; %s", k, own, log.String())
 			}
 		}
 		for _, d := range decoys {
 			if v, e := servers[d.node].Get(d.key); e != nil || v != "decoy" {
-				t.Fatalf("Del removed key %q from node #%d, which does not own it (owner #%d); %s", d.key, d.node, cl.owner(d.key), log.String())
+				fatalf("Del removed key %q from node #%d, which does not own it (owner #%d); %s", d.key, d.node, cl.owner(d.key), log.String())
 			}
 		}
 		if downOwns > 0 {
@@ -750,7 +769,7 @@ func TestVerifC15CacheSitesDown(t *testing.T) {
 			// the retry must not have touched the decoys either
 			for _, d := range decoys {
 				if v, e := servers[d.node].Get(d.key); e != nil || v != "decoy" {
-					t.Fatalf("the retried delete removed key %q from node #%d, which does not own it; %s", d.key, d.node, log.String())
+					fatalf("the retried delete removed key %q from node #%d, which does not own it; %s", d.key, d.node, log.String())
 				}
 			}
 		}
